@@ -757,6 +757,10 @@ def run(tier, seed):
             chk.sample(dict(state=name, point=pt, note="fidelity/KL/NLL agreed with the exactly evaluated definitions"))
     evaluator_path(cx, seed)
     negative_controls(chk, lib, states, tier, seed)
+    # code -> spec: NLL is the mean over the rows of each row's own term, KL the mean over the requested bases (a basis
+    # listed twice counts twice) - every number from a public call, the sums in TLC (GroupMean.tla / TraceGroupMean.tla)
+    import groupmean_trace
+    groupmean_trace.phase(chk, tier, random.Random(seed + 79), {"nll", "kl"})
     chk.extra["states_replayed"] = len(states)
     chk.extra["return_types"] = cx.types
     chk.extra["unjudged"] = cx.unjudged
